@@ -169,11 +169,15 @@ class Engine(
             raise RelationalAlgebraError(
                 f"Materializing relation {conformed_target} will not preserve row order."
             )
-        return Select.apply_skip(super().materialize(conformed_target, name, name_prefix))
+        # The base class returns the (already conformed) target itself when
+        # no new Materialization is needed; don't wrap that in another Select.
+        return self.conform(super().materialize(conformed_target, name, name_prefix))
 
     def transfer(self, target: Relation, payload: Any | None = None) -> Select:
         # Docstring inherited.
-        return Select.apply_skip(super().transfer(target, payload))
+        # The base class returns an existing relation when the transfer is
+        # simplified away; don't wrap an existing Select in another Select.
+        return self.conform(super().transfer(target, payload))
 
     def make_doomed_relation(
         self, columns: Set[ColumnTag], messages: Sequence[str], name: str = "0"
